@@ -133,6 +133,8 @@ def run(ctx):
     # the sensor-temperature decoder: StateResponse._parse_temperature, or - when it was moved out of the class - the function whose result
     # _parse stores in indoor_temperature (kept as a function of its own, not seen through)
     TEMPQ, toff = f"{SR}._parse_temperature", 1
+    if TEMPQ in prog.funcs and prog.funcs[TEMPQ].kind in ("function", "staticmethod"):
+        toff = 0          # (the decoder as a staticmethod: no receiver among the arguments)
     if TEMPQ not in prog.funcs and prog.lookup_method(prog.cls(SR), "_parse_temperature") is None:
         from ..helpers import with_helpers
         for f_ in with_helpers(prog, fn):          # (_parse itself or a step it was split into)
